@@ -206,7 +206,7 @@ func (e *Engine) ensureSolo(seeds []uint64, st *kernel.Stats) {
 			if k := diffResults(p.a, p.b); k != "" {
 				st.Inc("solo_nondeterministic")
 				e.pending = append(e.pending, kernel.Violation{Property: "C14", Kind: "nondeterministic", Signature: "determinism|two-fresh-processes|" + keyClass(k),
-					Detail: fmt.Sprintf("job %d run alone in two fresh processes gave different results at %s", s, k),
+					Detail:       fmt.Sprintf("job %d run alone in two fresh processes gave different results at %s", s, k),
 					Materialised: map[string]any{"job": e.spec(s)}})
 				ref.failed = "nondeterministic"
 			}
@@ -437,7 +437,7 @@ func init() {
 			}
 			return kernel.TierSpec{Runs: 60_000, WallSeconds: 40, ShrinkSecs: 25, RunBudgetMs: 6000}
 		},
-		Rule: "each run = one simulated process: 1..16 jobs drawn from a seeded pool (builders with colliding dynamic token ids, operators, interceptors, valid and corrupted inputs, several parsers per builder, several compilations per tree), one scheduling strategy (sequential control, random switching, PCT-style priorities with change points, round-robin quanta), parts of a job run inline or as own tasks; every yield decision comes from the tape; distinct = distinct sequence of (task, yield site) at context switches; non-trivial = at least two live jobs and at least one context switch",
+		Rule:      "each run = one simulated process: 1..16 jobs drawn from a seeded pool (builders with colliding dynamic token ids, operators, interceptors, valid and corrupted inputs, several parsers per builder, several compilations per tree), one scheduling strategy (sequential control, random switching, PCT-style priorities with change points, round-robin quanta), parts of a job run inline or as own tasks; every yield decision comes from the tape; distinct = distinct sequence of (task, yield site) at context switches; non-trivial = at least two live jobs and at least one context switch",
 		Real:      []string{"token", "lexer", "parser", "ast", "compiler", "sourcemap", "debug (ToString)"},
 		Simulated: []string{"caller tasks and the scheduler (goroutines parked/released one at a time at plugin callback seams and API-call boundaries)", "all plugins: token/statement/expression interceptors, operator constructors, wrapper and operator AST nodes", "the faulty storage medium (corrupted inputs)"},
 		Oracles:   []string{"the same job run alone in a fresh child process (twice: two fresh processes must agree)", "intra-job invariants: repeated compilation agrees, compile leaves the tree dump unchanged, source map does not change code, debug string equals compact compilation", "token.Keywords snapshot at every context switch", "residue check: a job re-run by itself after the world finished"},
